@@ -5,6 +5,8 @@ import (
 	"math"
 	"math/big"
 
+	"github.com/tuneinsight/lattigo/v6/circuits/ckks/bootstrapping"
+
 	"github.com/tuneinsight/lattigo/v6/core/rgsw"
 	"github.com/tuneinsight/lattigo/v6/core/rlwe"
 	"github.com/tuneinsight/lattigo/v6/multiparty"
@@ -36,6 +38,7 @@ func c10Scenarios() []c10Scenario {
 			{name: "mpbgv.protocols", build: c10MPBGV},
 			{name: "mpckks.protocols", build: c10MPCKKS},
 			{name: "rgsw", build: c10RGSW},
+			{name: "bootstrapping.Evaluator", heavy: true, build: c10Bootstrapping},
 		}
 	}
 	return c10Scs
@@ -756,6 +759,101 @@ func c10RGSW(ctx *core.RunCtx, g *core.Xoshiro) *c10World {
 				return 0, err
 			}
 			return hashGadget(&c.Value[0]) ^ 7*hashGadget(&c.Value[1]), nil
+		}},
+	}
+	return w
+}
+
+// --- bootstrapping evaluator (thorough tier only) --------------------------------------------------------
+
+type c10BtpCtx struct {
+	params ckks.Parameters
+	btp    bootstrapping.Parameters
+	keys   *bootstrapping.EvaluationKeys
+	eval   *bootstrapping.Evaluator
+	cts    []*rlwe.Ciphertext
+}
+
+func c10Bootstrapping(ctx *core.RunCtx, g *core.Xoshiro) *c10World {
+	variant := ctx.Ch.Draw("btp-variant", 2) // 0: same ring degree, 1: residual ring of half the degree (packing)
+	c := ctx.Cached(fmt.Sprintf("c10/bootstrapping/%d", variant), func(*core.Xoshiro) any {
+		lit := ckks.ParametersLiteral{LogN: 10, LogQ: []int{60, 40}, LogP: []int{61}, LogDefaultScale: 40}
+		btpLit := bootstrapping.ParametersLiteral{}
+		if variant == 1 {
+			lit.LogNthRoot = lit.LogN + 1
+			lit.LogN--
+		}
+		params, err := ckks.NewParametersFromLiteral(lit)
+		if err != nil {
+			return err
+		}
+		n2 := 10
+		btpLit.LogN = &n2
+		btp, err := bootstrapping.NewParametersFromLiteral(params, btpLit)
+		if err != nil {
+			return err
+		}
+		btp.SlotsToCoeffsParameters.LogSlots = btp.BootstrappingParameters.LogN() - 1
+		btp.CoeffsToSlotsParameters.LogSlots = btp.BootstrappingParameters.LogN() - 1
+		btp.Mod1ParametersLiteral.LogMessageRatio += 16 - params.LogN()
+		sk := rlwe.NewKeyGenerator(params).GenSecretKeyNew()
+		keys, _, err := btp.GenEvaluationKeys(sk)
+		if err != nil {
+			return err
+		}
+		ev, err := bootstrapping.NewEvaluator(btp, keys)
+		if err != nil {
+			return err
+		}
+		ecd := ckks.NewEncoder(params)
+		enc := rlwe.NewEncryptor(params, sk)
+		var cts []*rlwe.Ciphertext
+		for k := 0; k < 3; k++ {
+			v := make([]complex128, params.MaxSlots())
+			for i := range v {
+				v[i] = complex(float64((i*7+k*3)%17)/17-0.5, float64((i*5+k)%13)/13-0.5)
+			}
+			pt := ckks.NewPlaintext(params, 0)
+			if k > 0 {
+				// sparsely packed inputs: several of them are packed into one ciphertext before bootstrapping
+				pt.LogDimensions.Cols = params.LogMaxSlots() - 2
+				v = v[:len(v)/4]
+			}
+			if err := ecd.Encode(v, pt); err != nil {
+				return err
+			}
+			ct, err := enc.EncryptNew(pt)
+			if err != nil {
+				return err
+			}
+			cts = append(cts, ct)
+		}
+		return &c10BtpCtx{params, btp, keys, ev, cts}
+	})
+	cc, ok := c.(*c10BtpCtx)
+	if !ok {
+		ctx.Harness("bootstrapping context: %v", c)
+	}
+	ev := func(x any) *bootstrapping.Evaluator { return x.(*bootstrapping.Evaluator) }
+	params := cc.params.Parameters
+	w := &c10World{name: "bootstrapping.Evaluator", orig: cc.eval}
+	w.copiers = []c10Copier{{"ShallowCopy", true, func(x any) any { return ev(x).ShallowCopy() }}}
+	w.steps = []c10Step{
+		{"Bootstrap", false, func(o any) (uint64, error) {
+			out, err := ev(o).Bootstrap(cc.cts[0].CopyNew())
+			return errOf(err, func() uint64 { return canonHashCt(params, out) })
+		}},
+		{"BootstrapMany", false, func(o any) (uint64, error) {
+			in := []rlwe.Ciphertext{*cc.cts[1].CopyNew(), *cc.cts[2].CopyNew()}
+			out, err := ev(o).BootstrapMany(in)
+			if err != nil {
+				return 0, err
+			}
+			h := uint64(5)
+			for i := range out {
+				h = core.SplitMix64(h ^ canonHashCt(params, &out[i]))
+			}
+			return h, nil
 		}},
 	}
 	return w
